@@ -2,7 +2,7 @@
 import os
 
 from . import core
-from .rules import stdio, cert, mark, exact, optstore, inval, idx, atomic, own, tokens, idxclass, copy, pair, structfree, buf, div, counter, sentinel, appendinit, verdict, basismap, zerotol, escape, lenclass, djsym, ndet, useb4check, norms, opencheck, shell, esolver, errlost, rescan, certdep, neverset, fmt, defaults, scratch, fullscan, slotleak, floatidx, sensemap, trunc, vtypezero, allockind, intdiv, strscan, localfield, rawidx, argcap, staleptr, condalloc, lpstate, vstattype, alphabet, outleak, fieldleak, lenm1, basisdim, dupmark, rowcopy, normlen, logonly, decacc, nzcount, infmap, lognofail, outunset, dupentry, digitseen, signedidx, strcap, nulterm, finite, nullret, pcheck, probstat, dzfresh, kwtable, headguard, hitused, optptr, noindex, colen, pastcol, twopass
+from .rules import stdio, cert, mark, exact, optstore, inval, idx, atomic, own, tokens, idxclass, copy, pair, structfree, buf, div, counter, sentinel, appendinit, verdict, basismap, zerotol, escape, lenclass, djsym, ndet, useb4check, norms, opencheck, shell, esolver, errlost, rescan, certdep, neverset, fmt, defaults, scratch, fullscan, slotleak, floatidx, sensemap, trunc, vtypezero, allockind, intdiv, strscan, localfield, rawidx, argcap, staleptr, condalloc, lpstate, vstattype, alphabet, outleak, fieldleak, lenm1, basisdim, dupmark, rowcopy, normlen, logonly, decacc, nzcount, infmap, lognofail, outunset, dupentry, digitseen, signedidx, strcap, nulterm, finite, nullret, pcheck, probstat, dzfresh, kwtable, headguard, hitused, optptr, noindex, colen, pastcol, twopass, growguard
 from .effects import Effects
 
 FIX = os.path.join(os.path.dirname(os.path.abspath(__file__)), "fixtures")
@@ -394,7 +394,7 @@ PROPS = {
                   lambda prog, tier: tokens.run_lp(prog),
                   lambda prog, tier: tokens.run_sections(prog, "mpq_ILLwrite_lp", {"End"}, print_funcs={"mpq_ILLprint_report": 1}, token_ok=lambda t: t[0].isupper()),
                   lambda prog, tier: idxclass.run(prog, scope_units=("lp_mpq.c", "write_lp_mpq.c", "rawlp_mpq.c")),
-                  lambda prog, tier: sentinel.run(prog), lambda prog, tier: rescan.run(prog), lambda prog, tier: decacc.run(prog), lambda prog, tier: kwtable.run(prog), lambda prog, tier: hitused.run(prog), lambda prog, tier: defaults.run(prog), lambda prog, tier: defaults.run_bndflag(prog), lambda prog, tier: defaults.run_msgmeans(prog),
+                  lambda prog, tier: sentinel.run(prog), lambda prog, tier: rescan.run(prog), lambda prog, tier: decacc.run(prog), lambda prog, tier: kwtable.run(prog), lambda prog, tier: hitused.run(prog), lambda prog, tier: defaults.run(prog), lambda prog, tier: defaults.run_bndflag(prog), lambda prog, tier: defaults.run_msgmeans(prog), lambda prog, tier: defaults.run_defaultpair(prog),
                   lambda prog, tier: fullscan.run(prog, ["mpq_ILLwrite_lp"], ("lp_mpq.c", "write_lp_mpq.c"), floor=4),
                   lambda prog, tier: trunc.run(prog)],
         "technique": "lossy-conversion sink census over the writer and reader call-graph closures; writer/reader agreement of type-resolved "
@@ -417,7 +417,7 @@ PROPS = {
                   lambda prog, tier: tokens.run_mps(prog),
                   lambda prog, tier: tokens.run_sections(prog, "mpq_ILLwrite_mps", {"ENDATA"}, print_funcs={"mpq_ILLprint_report": 1}, token_ok=lambda t: t.isupper() and len(t) >= 2),
                   lambda prog, tier: idxclass.run(prog, scope_units=("mps_mpq.c", "rawlp_mpq.c")),
-                  lambda prog, tier: sentinel.run(prog), lambda prog, tier: appendinit.run(prog), lambda prog, tier: appendinit.run_repack(prog), lambda prog, tier: appendinit.run_remap(prog, shared_eff(prog)), lambda prog, tier: fmt.run_args(prog), lambda prog, tier: rescan.run(prog), lambda prog, tier: defaults.run(prog), lambda prog, tier: defaults.run_bndflag(prog), lambda prog, tier: defaults.run_msgmeans(prog),
+                  lambda prog, tier: sentinel.run(prog), lambda prog, tier: appendinit.run(prog), lambda prog, tier: appendinit.run_repack(prog), lambda prog, tier: appendinit.run_remap(prog, shared_eff(prog)), lambda prog, tier: fmt.run_args(prog), lambda prog, tier: rescan.run(prog), lambda prog, tier: defaults.run(prog), lambda prog, tier: defaults.run_bndflag(prog), lambda prog, tier: defaults.run_msgmeans(prog), lambda prog, tier: defaults.run_defaultpair(prog),
                   lambda prog, tier: fullscan.run(prog, ["mpq_ILLwrite_mps"], ("mps_mpq.c",), floor=6),
                   lambda prog, tier: fullscan.run_rowfilter(prog), lambda prog, tier: fullscan.run_rangepair(prog), lambda prog, tier: trunc.run(prog)],
         "technique": "lossy-conversion sink census over writer/reader closures; table agreement (section names, bound mnemonics, row-type "
@@ -436,7 +436,7 @@ PROPS = {
         "rules": [lambda prog, tier: exact.run(prog, {"READ": {"roots": ["mpq_QSread_prob", "mpq_QSget_prob"], "closure": True, "word": True}},
                                                floors=[("exact literal parser reachable from QSread_prob", ["mpq_QSread_prob"], "mpq_EGlpNumReadStrXc", 1),
                                                        ("exact literal parser reachable from ILLget_value", ["mpq_ILLget_value"], "mpq_EGlpNumReadStrXc", 1)]),
-                  lambda prog, tier: rescan.run(prog), lambda prog, tier: decacc.run(prog), lambda prog, tier: defaults.run(prog), lambda prog, tier: defaults.run_bndflag(prog), lambda prog, tier: defaults.run_msgmeans(prog), lambda prog, tier: strscan.run(prog), lambda prog, tier: strscan.run_advance(prog),
+                  lambda prog, tier: rescan.run(prog), lambda prog, tier: decacc.run(prog), lambda prog, tier: defaults.run(prog), lambda prog, tier: defaults.run_bndflag(prog), lambda prog, tier: defaults.run_msgmeans(prog), lambda prog, tier: defaults.run_defaultpair(prog), lambda prog, tier: strscan.run(prog), lambda prog, tier: strscan.run_advance(prog),
                   lambda prog, tier: rawidx.run(prog), lambda prog, tier: digitseen.run(prog), lambda prog, tier: digitseen.run_expmark(prog)],
         "technique": "lossy-conversion sink census over the reader call-graph closure of the rational instantiation (type-resolved, after "
                      "preprocessing: the #ifdef between the exact and the double literal reader is resolved as the build resolves it)",
@@ -451,7 +451,7 @@ PROPS = {
                        "default bound rules (seed C10/3)",
     },
     "C11": {
-        "rules": [lambda prog, tier: buf.run(prog, scope_funcs=set(prog.reachable([prog.require_fn(r).key for r in
+        "rules": [lambda prog, tier: growguard.run(prog), lambda prog, tier: buf.run(prog, scope_funcs=set(prog.reachable([prog.require_fn(r).key for r in
                                                                                  ("mpq_QSread_prob", "mpq_QSget_prob", "mpq_QSread_basis", "mpq_QSread_and_load_basis")]))),
                   lambda prog, tier: div.run(prog), lambda prog, tier: counter.run(prog),
                   lambda prog, tier: errlost.run(prog, scope_funcs=set(prog.reachable([prog.require_fn(r).key for r in
@@ -547,7 +547,7 @@ PROPS = {
     "C17": {
         "rules": [lambda prog, tier: buf.run(prog),
                   lambda prog, tier: idx.run(prog), lambda prog, tier: idx.run_pubstruct(prog), lambda prog, tier: optptr.run(prog),
-                  lambda prog, tier: colen.run(prog), lambda prog, tier: pastcol.run(prog), lambda prog, tier: twopass.run(prog),
+                  lambda prog, tier: colen.run(prog), lambda prog, tier: pastcol.run(prog), lambda prog, tier: twopass.run(prog), lambda prog, tier: growguard.run(prog),
                   lambda prog, tier: idxclass.run(prog),
                   lambda prog, tier: lenclass.run(prog),
                   lambda prog, tier: lenclass.run_capacity(prog),
@@ -843,6 +843,27 @@ for _pid in ("C13", "C17"):
         " (R-TWOPASS) in a two-pass construction of packed segments (count, lay out, fill) a counter field that the counting loop increments "
         "for every entry is not incremented only conditionally by the filling loop: every slot that is laid out is written (the U segments of "
         "the LU factorization).")
+for _pid in ("C11", "C17"):
+    _ADD.setdefault(_pid, {})
+    _ADD[_pid]["explanation"] = _ADD[_pid].get("explanation", "") + (
+        " (R-GROWGUARD) a re-allocation of a record's array field with a capacity field of that record as its length, when it sits in the branch of "
+        "a test of another capacity field, is also controlled by a test of its own capacity: arrays with different growth sequences are not grown "
+        "under the test of only one of them.")
+for _pid in ("C08", "C09", "C10"):
+    _ADD.setdefault(_pid, {})
+    _ADD[_pid]["explanation"] = _ADD[_pid].get("explanation", "") + (
+        " (R-DEFAULTPAIR) the writers' 'is the default' verdict compares a column's upper bound with the finite default constant only inside a "
+        "branch of a test of the column's lower bound - the mirror of the reader, which supplies the finite default only when no lower bound was stated.")
+for _pid in ("C08", "C09", "C14", "C19"):
+    _ADD.setdefault(_pid, {})
+    _ADD[_pid]["explanation"] = _ADD[_pid].get("explanation", "") + (
+        " R-TRUNC also requires the 'fits' comparison to be strict: the buffer is not written on an edge where the needed length may equal the size "
+        "given to the formatting call (the count excludes the NUL).")
+for _pid in ("C01", "C02"):
+    _ADD.setdefault(_pid, {})
+    _ADD[_pid]["explanation"] = _ADD[_pid].get("explanation", "") + (
+        " R-OUTCOPY also requires that nothing but the element copies writes an element of an output vector of a hand-over function (no sign "
+        "change or scaling between the tested vector and the one the caller receives).")
 _ADD.setdefault("C17", {})
 _ADD["C17"]["explanation"] = _ADD["C17"].get("explanation", "") + (
     " (R-PUBSTRUCT) a caller-supplied array of a public function is not subscripted inside a loop whose bound is a dimension of the internal "
